@@ -165,6 +165,8 @@ pub fn c03(cfg: &Cfg) -> i32 {
 }
 
 pub fn c05(cfg: &Cfg) -> i32 {
+    // a seventh of the games ask play states for the offered list only (the monitor does not use the rule-only list)
+    crate::driver::OFFERED_ONLY_PER_MILLE.store(150, std::sync::atomic::Ordering::Relaxed);
     let mix = Mix { w1: (200, 5000), w3: (1200, 30000), w5: (1200, 30000), w5b: (150, 4000), w5c: (8, 200), w5d: (300, 6000), w7c: (40, 800), w7: (10, 200), long_w3: (0, 60), max_turns: 200, ..Mix::default() };
     let sink = run_mix(cfg, &mix, &|| Box::new(C05::default()));
     let floors = vec![
